@@ -298,8 +298,8 @@ PROPS["C20"] = {
     "text": "Node with heartbeat producer and two consumers, SYNC (consumer or producer), EMCY, an asynchronous RPDO, an event-driven and a synchronous TPDO, SDO server, SDO client, LSS, an application timer; two further configurations keep 1017h in a communication parameter group with an NVM image (1010h:1, event 'save'), so that RAM and NVM differ at the reset and the fresh node loads the NVM image. 36 (37) history events: ticks; SDO writes to 1017h, 1016h, 1005h, 1006h, 1014h, 1800h:1/:3/:5; heartbeat frames; SDO transfers left open in every phase (segmented and block, up and down); a busy SDO client and its response; COEmcySet/Clr of error 2 and COEmcySet of error 9 (another status byte); LSS configure node-id + store; NMT start/stop/pre-op; application timer create/delete; RPDO frame; TPDO trigger. In every discovered state s (on copies): A = s followed by NMT reset communication (configurations 0,2) or reset node (1,3); B = the pristine pre-initialisation memory image into which the dictionary values of A (not the run-time fields next to them), the NVM image and the LSS store are copied, then CONodeInit + CONodeStart. For every probe sequence of length <= 2 (3) over 14 probes (SDO reads, SYNC, heartbeat of a monitored node, RPDO, NMT start, LSS inquiry, SDO client transfer, 4 ticks, segmented upload, COEmcySet, TPDO trigger, SDO write+read) the complete traces (frames per tick, callbacks, NMT mode, node id) of A and B must be equal; the timer slots in use after the reset must equal those of the fresh node plus the live application timers. Two configurations are explored again in a build with two SDO servers in which all SDO traffic of the histories (segmented and block transfers left open at the reset) and of the probes runs over the second server. LSS sequences split across the reset: the history can hold the first frame or the first three of a selective switch and the first three of the six-frame identify-remote-slave sequence, the probes send the remaining frames - a fresh node has not seen the beginning and must not complete the sequence.",
     "note": "1003h (error history) is not part of the dictionary: whether a reset clears it is not fixed by the statement; application timer callbacks are removed from the traces; depth-bounded",
     "jobs": {
-        "quick": [J("c20", c, depth=4, deadline=150) for c in range(6)] + [J("c20", c, defs=["CO_SSDO_N=2"], depth=3, deadline=100, opts={"srv": 1}) for c in (0, 1)],
-        "thorough": [J("c20", c, depth=5, deadline=1500, max_states=5000000) for c in range(6)] + [J("c20", c, depth=3, deadline=1500, opts={"plen": 3}) for c in range(6)] + [J("c20", c, defs=["CO_SSDO_N=2"], depth=4, deadline=1200, max_states=5000000, opts={"srv": 1}) for c in (0, 1, 2)],
+        "quick": [J("c20", c, depth=4, deadline=150) for c in range(6)] + [J("c20", c, defs=["CO_SSDO_N=2"], depth=3, deadline=100, opts={"srv": 1}) for c in (0, 1)] + [J("c20", c, depth=3, deadline=100, opts={"cbreset": 1}) for c in (0, 1)],
+        "thorough": [J("c20", c, depth=5, deadline=1500, max_states=5000000) for c in range(6)] + [J("c20", c, depth=3, deadline=1500, opts={"plen": 3}) for c in range(6)] + [J("c20", c, defs=["CO_SSDO_N=2"], depth=4, deadline=1200, max_states=5000000, opts={"srv": 1}) for c in (0, 1, 2)] + [J("c20", c, depth=4, deadline=1200, max_states=5000000, opts={"cbreset": 1}) for c in (0, 1, 2, 3)],
     },
 }
 
